@@ -140,6 +140,50 @@ theorem redis_never_early (r : R) (prio : Nat) (topics : List String) (now due :
   rw [hscore s hm] at hs
   exact ceilSecs_le_secs _ _ hs
 
+theorem mem_zinsert_self (e : String × Int) (l : List (String × Int)) : e ∈ zinsert e l := by
+  induction l with
+  | nil => simp [zinsert]
+  | cons y rest ih =>
+    simp only [zinsert]
+    split
+    · simp
+    · exact List.mem_cons_of_mem _ ih
+
+theorem mem_zinsert_of_mem (e x : String × Int) (l : List (String × Int)) (h : x ∈ l) : x ∈ zinsert e l := by
+  induction l with
+  | nil => simp at h
+  | cons y rest ih =>
+    simp only [zinsert]
+    split
+    · exact List.mem_cons_of_mem _ h
+    · rcases List.mem_cons.mp h with h | h
+      · simp [h]
+      · exact List.mem_cons_of_mem _ (ih h)
+
+theorem mem_zsorted_of_mem (x : String × Int) (z : List (String × Int)) (h : x ∈ z) : x ∈ zsorted z := by
+  induction z with
+  | nil => simp at h
+  | cons y rest ih =>
+    simp only [zsorted, List.foldr_cons]
+    rcases List.mem_cons.mp h with h | h
+    · subst h; exact mem_zinsert_self _ _
+    · exact mem_zinsert_of_mem _ _ _ (ih h)
+
+/-- `redis_due_is_fetched` ("never forgotten", one poll): if a delayed message of the polled priority is due (its score is
+    not in the future) and matches the consumer's topics, a poll of a NORMAL-category consumer takes some delayed message
+    — the delayed set is looked at before the normal list, and nothing due is skipped over for ever -/
+theorem redis_due_is_fetched (r : R) (prio : Nat) (topics : List String) (nowSec : Int) (x : String) (s : Int)
+    (hm : ((prio, x), s) ∈ r.delayed) (hs : s ≤ nowSec) (ht : matchesTopics topics x = true) :
+    (fetchDelayed r prio topics nowSec false).isSome = true := by
+  simp only [fetchDelayed, Bool.false_or]
+  rw [List.find?_isSome]
+  refine ⟨x, ?_, ht⟩
+  simp only [List.mem_map, List.mem_filter, decide_eq_true_eq]
+  refine ⟨(x, s), ⟨?_, hs⟩, rfl⟩
+  apply mem_zsorted_of_mem
+  simp only [zview, List.mem_map, List.mem_filter, beq_iff_eq]
+  exact ⟨((prio, x), s), ⟨hm, rfl⟩, rfl⟩
+
 /-- the score `enqueue` stores is the rounded-up due time -/
 theorem enqueue_score (p : Params) (now due : Int) (cronNext : String → Int → Int)
     (h : p.waitUntil now cronNext = some due) : waitScore p now cronNext = some (ceilSecs due) := by
